@@ -1379,6 +1379,7 @@ def kak_certificate(ctx):
             hx, hy, hz = (float(x) for x in UD.calculate_h_vector(ud_diag, backend=nb))
             core = bell_core(hx, hy, hz)
             zero_h = bool(np.allclose([hx, hy, hz], [0, 0, 0]))
+            tpl_ok = True
             if zero_h:
                 fac0 = [np.asarray(x, dtype=complex) for x in UD.magic_decomposition(M.copy(), backend=nb)]
                 u4, v4, ud, u1, v1 = fac0
@@ -1391,9 +1392,8 @@ def kak_certificate(ctx):
                 light = bool(np.allclose(hz, 0))
                 tpl = UD.cnot_decomposition_light(0, 1, hx, hy, backend=nb) if light else UD.cnot_decomposition(0, 1, hx, hy, hz, backend=nb)
                 tm = [(x.__class__.__name__, tuple(x.qubits), np.asarray(x.matrix(nb), dtype=complex)) for x in tpl]
-                # numeric instance of the kernel-proved template identity (guards the harness's reading of the theorem)
-                if not qgates.phase_equal(full_of(tpl, 2), bell_core(hx, hy, 0.0 if light else hz), 1e-8):
-                    raise RuntimeError("harness: the template does not reproduce Ud(h) although C10_kak_* is proved")
+                # numeric instance of the template identity (kernel-proved for all h by C10_kak_* on the unchanged tree)
+                tpl_ok = qgates.phase_equal(full_of(tpl, 2), bell_core(hx, hy, 0.0 if light else hz), 1e-8)
                 branch = ("light" if light else "general") + ("_bare" if fac is None else "")
                 if fac is None:
                     expected = tm
@@ -1413,8 +1413,6 @@ def kak_certificate(ctx):
                     tol = 2e-5 if res[-1] > 1e-8 else 1e-8
                     res = [r for r in res]
             ctx.stat("kak_cert_" + branch)
-        except RuntimeError:
-            raise
         except Exception as e:
             bad_f += 1
             first_f = first_f or f"{label}: re-running the helper functions raises {type(e).__name__}: {e}"
@@ -1435,9 +1433,10 @@ def kak_certificate(ctx):
         same = len(expected) == len(gl) and all(
             en == x.__class__.__name__ and tuple(eq) == tuple(x.qubits) and np.allclose(em, np.asarray(x.matrix(nb)), atol=1e-9)
             for (en, eq, em), x in zip(expected, gl))
-        if not same:
+        if not same or not tpl_ok:
             bad_d += 1
-            first_d = first_d or f"{label} ({branch}): emitted {[(x.__class__.__name__, x.qubits) for x in gl]}"
+            first_d = first_d or (f"{label} ({branch}): emitted {[(x.__class__.__name__, x.qubits) for x in gl]}" if tpl_ok else
+                                  f"{label} ({branch}): the real template at h = {(hx, hy, hz)} is not Ud(h) up to a phase")
             if not prop_ok:
                 ctx.fail(f"kak:dressing:{branch}", f"two_qubit_decomposition of '{label}' ({branch} branch): the gate list is not the template for Ud(h) "
                          "merged with the factors, and is not the unitary up to a phase", replay, observed=str([(x.__class__.__name__, x.qubits) for x in gl]),
